@@ -62,13 +62,13 @@ class Family:
     def columns(self):
         return [c["name"] for c in self.components()]
 
-    def rows(self, rng, n):
+    def rows(self, rng, n, id1_max=4):
         keys = set()
         rows = []
         tries = 0
         while len(rows) < n and tries < n * 20:
             tries += 1
-            k = [rng.randint(1, 4)]
+            k = [rng.randint(1, id1_max)]
             if self.has_id2:
                 k.append(rng.choice(STR_VALUES[:3]))
             if self.has_tp:
@@ -126,7 +126,7 @@ class Workload:
 def generate(rng, *, n_inputs=None, n_statements=None, rows=None, viral=None, time_period=None,
              carriers=("df", "csv_text", "parquet_df"), allow_scalar=True, allow_udo=True,
              allow_analytic=True, allow_dpr=True, total_orders_only=True, persist_all=False,
-             shuffle_statements=True):
+             shuffle_statements=True, group_focus=False):
     """Returns a dict: script, statements (ordered as written), structures, data (op 'data'
     form), meta (graph edges, persistence vector, shapes)."""
     fam = Family(rng, viral=viral, time_period=time_period)
@@ -153,6 +153,8 @@ def generate(rng, *, n_inputs=None, n_statements=None, rows=None, viral=None, ti
     for i in range(m):
         name = rng.choice(["R_%d", "R_%d", "R_%d", "Out_%d", "tmp_%d"]) % (i + 1)
         r = rng.random()
+        if group_focus and rng.random() < 0.5:
+            r = rng.choice([0.56, 0.58, 0.6, 0.65, 0.905])   # aggregations / analytic over groups
         a = pick("S")
         b = pick("S", exclude=() if rng.random() < 0.15 else (a,)) or a
         const = rng.choice([1, 2, 3, 5, 10])
@@ -246,7 +248,8 @@ def generate(rng, *, n_inputs=None, n_statements=None, rows=None, viral=None, ti
     if not any(s["op"] == "<-" for s in stmts):
         stmts[-1]["op"] = "<-"
     if fam.viral and rng.random() < 0.85:
-        defs.append(rng.choice(VIRAL_RULES).format(i=1))
+        rule = VIRAL_RULES[3] if (group_focus and rng.random() < 0.4) else rng.choice(VIRAL_RULES)
+        defs.append(rule.format(i=1))
     if used_udo:
         defs.append("define operator udo_add (x dataset, y dataset) returns dataset is x + y end operator;")
     if used_dpr:
@@ -264,7 +267,7 @@ def generate(rng, *, n_inputs=None, n_statements=None, rows=None, viral=None, ti
     nrows = {}
     for n in inputs:
         nr = rows if rows is not None else rng.choice([0, 1, 2, 3, 4, 5, 6, 8])
-        rs = fam.rows(rng, nr)
+        rs = fam.rows(rng, nr, id1_max=2 if group_focus else 4)
         nrows[n] = len(rs)
         kind = rng.choice(list(carriers))
         if kind == "csv_text":
